@@ -1,11 +1,39 @@
 import Seccomp.Proofs.Lemmas.KernelLemmas
 import Seccomp.Gen.Skeletons
+import Seccomp.Model.LoaderSpec
 /-!
 # The generated loader against the abstract kernel
 
 Everything here is about `Gen.seccomp`, `Gen.prctl`, `Gen.setNoNewPrivs`, `Gen.supported`,
 `Gen.loadFilter` — the Lean rendering of seccomp_linux.go that `vextract` regenerates on every run.
 -/
+
+/-- **The one lemma that looks inside `Gen.seccomp`** (everything else in the loader proofs goes through
+    it): the wrapper leaves the world the kernel call leaves, is nil exactly when the kernel reported
+    errno 0 and — if thread-sync was asked for — returned 0, and otherwise carries the errno or an error
+    that is not an errno.  Proved by case analysis on the kernel's answer, not on the shape of the `if`
+    tree, and without mentioning the message text: any equivalent arrangement of the same tests in the
+    source proves the same way. -/
+theorem gen_seccomp_core (U : Unsupported) (op flags : Nat) (uargs : Option Prog) (w : World) :
+    (Gen.seccomp U op flags uargs w).2 = (sysSeccomp op flags uargs w).2.2 ∧
+    ((Gen.seccomp U op flags uargs w).1 = GoErr.nil ↔
+      ((sysSeccomp op flags uargs w).2.1 = 0 ∧ ¬ (flags &&& 1 ≠ 0 ∧ (sysSeccomp op flags uargs w).1 ≠ 0))) ∧
+    (Gen.seccomp U op flags uargs w).1.cls =
+      (if (sysSeccomp op flags uargs w).2.1 ≠ 0 then ErrClass.errno (sysSeccomp op flags uargs w).2.1
+       else if flags &&& 1 ≠ 0 ∧ (sysSeccomp op flags uargs w).1 ≠ 0 then .other else .nil) ∧
+    ((sysSeccomp op flags uargs w).2.1 ≠ 0 →
+      (Gen.seccomp U op flags uargs w).1 = GoErr.errno (sysSeccomp op flags uargs w).2.1) := by
+  unfold Gen.seccomp
+  generalize sysSeccomp op flags uargs w = r
+  obtain ⟨r1, e, w1⟩ := r
+  generalize flags &&& 1 = tsync
+  by_cases he : e = 0 <;> by_cases hr : r1 = 0 <;> by_cases hf : tsync = 0 <;>
+    simp [he, hr, hf, GoErr.cls]
+
+/-- the wrapper never changes the world: it only interprets the kernel's answer -/
+theorem gen_seccomp_world (U : Unsupported) (op flags : Nat) (uargs : Option Prog) (w : World) :
+    (Gen.seccomp U op flags uargs w).2 = (sysSeccomp op flags uargs w).2.2 :=
+  (gen_seccomp_core U op flags uargs w).1
 
 /-- the `seccomp()` wrapper: nil exactly when the kernel attached the filter -/
 theorem gen_seccomp_nil {U : Unsupported} {flags : Nat} {uargs : Option Prog} {w w' : World}
@@ -27,50 +55,38 @@ theorem gen_seccomp_nil {U : Unsupported} {flags : Nat} {uargs : Option Prog} {w
                              nnp := (w.thr t).nnp || ((schedStep w).thr (schedStep w).cur).nnp }
             else w.thr t })) := by
   have hk := sysSeccomp_filter flags uargs w
-  unfold Gen.seccomp at h
-  generalize sysSeccomp 1 flags uargs w = r at h hk
+  obtain ⟨hw, hnil, _, _⟩ := gen_seccomp_core U 1 flags uargs w
+  have h1 : (Gen.seccomp U 1 flags uargs w).1 = GoErr.nil := by rw [h]
+  have h2 : w' = (sysSeccomp 1 flags uargs w).2.2 := by rw [← hw, h]
+  have hz := hnil.1 h1
+  generalize sysSeccomp 1 flags uargs w = r at hk hz h2
   cases hk with
-  | declined e he _ =>
-    simp only [he, ne_eq, not_false_eq_true, if_true, Prod.mk.injEq] at h
-    exact absurd h.1 (by simp)
+  | declined e he _ => exact absurd hz.1 he
   | refused t hts _ _ =>
-    simp only [ne_eq, not_true_eq_false, if_false] at h
-    have hts1 : flags &&& 1 ≠ 0 := hts
-    have : (flags &&& 1 ≠ 0 ∧ t + 1 ≠ 0) := ⟨hts1, Nat.succ_ne_zero t⟩
-    rw [if_pos this] at h
-    simp only [Prod.mk.injEq] at h
-    exact absurd h.1 (by simp)
+    exact absurd ⟨hts, Nat.succ_ne_zero t⟩ hz.2
   | attachedOne p hp hok havail hflags hts hpriv =>
-    simp only [ne_eq, not_true_eq_false, if_false, and_false, Prod.mk.injEq, true_and] at h
-    exact ⟨p, hp, hok, havail, hflags, fun h' => absurd hts h', hpriv, .inl ⟨hts, h.symm⟩⟩
+    exact ⟨p, hp, hok, havail, hflags, fun h' => absurd hts h', hpriv, .inl ⟨hts, h2⟩⟩
   | attachedAll p hp hok havail hflags hts hsync hpriv =>
-    simp only [ne_eq, not_true_eq_false, if_false, and_false, Prod.mk.injEq, true_and] at h
-    exact ⟨p, hp, hok, havail, hflags, fun _ => hsync, hpriv, .inr ⟨hts, h.symm⟩⟩
+    exact ⟨p, hp, hok, havail, hflags, fun _ => hsync, hpriv, .inr ⟨hts, h2⟩⟩
 
 /-- the `seccomp()` wrapper: a non-nil result leaves every thread as it was -/
 theorem gen_seccomp_err {U : Unsupported} {flags : Nat} {uargs : Option Prog} {w w' : World} {err : GoErr}
     (h : Gen.seccomp U 1 flags uargs w = (err, w')) (hne : err ≠ GoErr.nil) :
     w' = { schedStep w with log := .seccomp (schedStep w).cur 1 flags uargs :: w.log } := by
   have hk := sysSeccomp_filter flags uargs w
-  unfold Gen.seccomp at h
-  generalize sysSeccomp 1 flags uargs w = r at h hk
+  obtain ⟨hw, hnil, _, _⟩ := gen_seccomp_core U 1 flags uargs w
+  have h1 : (Gen.seccomp U 1 flags uargs w).1 ≠ GoErr.nil := by rw [h]; exact hne
+  have h2 : w' = (sysSeccomp 1 flags uargs w).2.2 := by rw [← hw, h]
+  have hz : ¬ ((sysSeccomp 1 flags uargs w).2.1 = 0 ∧ ¬ (flags &&& 1 ≠ 0 ∧ (sysSeccomp 1 flags uargs w).1 ≠ 0)) :=
+    fun hc => h1 (hnil.2 hc)
+  generalize sysSeccomp 1 flags uargs w = r at hk hz h2
   cases hk with
-  | declined e he _ =>
-    simp only [he, ne_eq, not_false_eq_true, if_true, Prod.mk.injEq] at h
-    exact h.2.symm
-  | refused t hts _ _ =>
-    simp only [ne_eq, not_true_eq_false, if_false] at h
-    have hts1 : flags &&& 1 ≠ 0 := hts
-    have : (flags &&& 1 ≠ 0 ∧ t + 1 ≠ 0) := ⟨hts1, Nat.succ_ne_zero t⟩
-    rw [if_pos this] at h
-    simp only [Prod.mk.injEq] at h
-    exact h.2.symm
+  | declined e he _ => exact h2
+  | refused t hts _ _ => exact h2
   | attachedOne p hp hok havail hflags hts hpriv =>
-    simp only [ne_eq, not_true_eq_false, if_false, and_false, Prod.mk.injEq] at h
-    exact absurd h.1.symm hne
+    exact absurd ⟨rfl, fun hc => hc.2 rfl⟩ hz
   | attachedAll p hp hok havail hflags hts hsync hpriv =>
-    simp only [ne_eq, not_true_eq_false, if_false, and_false, Prod.mk.injEq] at h
-    exact absurd h.1.symm hne
+    exact absurd ⟨rfl, fun hc => hc.2 rfl⟩ hz
 
 /-- the refusals, one by one: the wrapper reports each as a non-nil error -/
 theorem gen_seccomp_declines {U : Unsupported} {flags : Nat} {uargs : Option Prog} {w : World}
@@ -100,17 +116,6 @@ theorem gen_seccomp_declines {U : Unsupported} {flags : Nat} {uargs : Option Pro
     rw [hdiv] at this; cases this
   · rw [hna] at havail; cases havail
 
-/-- the wrapper never changes the world: it only interprets the kernel's answer -/
-theorem gen_seccomp_world (U : Unsupported) (op flags : Nat) (uargs : Option Prog) (w : World) :
-    (Gen.seccomp U op flags uargs w).2 = (sysSeccomp op flags uargs w).2.2 := by
-  unfold Gen.seccomp
-  generalize sysSeccomp op flags uargs w = r
-  obtain ⟨r1, e, w1⟩ := r
-  simp only
-  split
-  · rfl
-  · split <;> rfl
-
 /-- the wrapper issues exactly one kernel call, with the operation, flag word and pointer it was given,
     whatever the outcome -/
 theorem gen_seccomp_log (U : Unsupported) (flags : Nat) (uargs : Option Prog) (w : World) :
@@ -133,7 +138,7 @@ theorem gen_seccomp_ok {U : Unsupported} {flags : Nat} {p : Prog} {w : World}
         (w.thr t).filters.isSuffixOf (w.thr (schedStep w).cur).filters = true) :
     (Gen.seccomp U 1 flags (some p) w).1 = GoErr.nil := by
   have hk := sysSeccomp_filter flags (some p) w
-  unfold Gen.seccomp
+  apply (gen_seccomp_core U 1 flags (some p) w).2.1.2
   generalize sysSeccomp 1 flags (some p) w = r at hk
   cases hk with
   | declined e he hwhy =>
@@ -155,6 +160,23 @@ theorem gen_seccomp_ok {U : Unsupported} {flags : Nat} {p : Prog} {w : World}
     have := hsync hts t ht.1 ht.2
     rw [hdiv] at this; cases this
   | attachedOne q hq hok' havail' hflags' hts hpriv' =>
-    simp only [ne_eq, not_true_eq_false, if_false, and_false]
+    exact ⟨rfl, fun hc => hc.2 rfl⟩
   | attachedAll q hq hok' havail' hflags' hts hsync' hpriv' =>
-    simp only [ne_eq, not_true_eq_false, if_false, and_false]
+    exact ⟨rfl, fun hc => hc.2 rfl⟩
+
+/-- **`Supported()` in one equation**: it reports whether the syscall exists, and the world is the one the
+    probe call leaves.  Through `gen_seccomp_core`, by cases on the kernel's answer (not on how the
+    source spells the comparison with EINVAL). -/
+theorem gen_supported_char (U : Unsupported) (w : World) :
+    Gen.supported U w = (w.seccompAvailable, (sysSeccomp 0 1 none w).2.2) := by
+  have hne : (sysSeccomp 0 1 none w).2.1 ≠ 0 := by
+    rw [sysSeccomp_probe]; cases w.seccompAvailable <;> simp [EINVAL, ENOSYS]
+  have h4 := (gen_seccomp_core U 0 1 none w).2.2.2 hne
+  have hw := gen_seccomp_world U 0 1 none w
+  unfold Gen.supported
+  generalize Gen.seccomp U 0 1 none w = r at h4 hw
+  obtain ⟨err, w2⟩ := r
+  simp only at h4 hw
+  subst h4 hw
+  rw [sysSeccomp_probe]
+  cases w.seccompAvailable <;> simp [EINVAL, ENOSYS]
